@@ -111,7 +111,13 @@ func runPoolHistory(ops []poolOp, nctx int) ([]string, string) {
 				ctxs[op.Ctx].Reset()
 			} else {
 				decoder.ReleaseCtx(ctxs[op.Ctx])
+				// the borrowed objects go back when the context is released, not
+				// when (and if) it is taken out of the pool again
+				released := len(poolLog)
 				ctxs[op.Ctx] = decoder.AcquireCtx()
+				if len(poolLog) != released && fail == "" {
+					fail = fmt.Sprintf("taking a context out of the context pool produced pool events %v: borrowed objects were still held by a released context", poolLog[released:])
+				}
 			}
 			// every object the context held must have been reset and put back exactly once
 			seen := map[string]int{}
